@@ -6,6 +6,7 @@ elsewhere in einx, cooperative lock shim). Oracle: the set of (outcome vector, f
 state) pairs produced by running the same actions sequentially on the real code in every
 interleaving that respects per-thread order. The observed pair must be a member.
 """
+import collections
 import itertools
 import random
 import sys
@@ -16,7 +17,7 @@ LEVEL = "exploration"
 RULE = (
     "programs of 2-3 threads x 1-4 atomic actions (einx call with/without backend argument - 9 built-in calls incl. two signatures of one op, an adapted function with two signatures, a call with a tensor factory, solve_axes, matches, creation and use of a new adapter; enter/exit of a 'with backend' block, einx.backend.get, eager registration of a "
     "synthetic backend, first use of a lazily registered backend after its module appears) on the real global registry; schedules: no preemption, PCT-style 1-3 pre-drawn "
-    "preemption points, random switching, (thorough) every single preemption point and every pair inside frontend/backend.py; warm and cold (compile caches cleared) variants; "
+    "preemption points, random switching, preemption at source lines executed at most twice in the run, (thorough) every single preemption point and every pair inside frontend/backend.py; warm and cold (compile caches cleared) variants; "
     "distinct = distinct switch sequences (thread, yield index); non-trivial = schedules with at least one preemption"
 )
 ASSUMPTIONS = [
@@ -326,8 +327,14 @@ def run(spec, out):
         tids = [f"T{i}" for i in range(len(program["threads"]))]
         # measuring run without preemption: number of yield points and those inside backend.py
         sc0 = T.Sched(0, tids)
+        sc0.trace = []
         obs, hung = run_schedule(world, program, sc0)
         N = max(sc0.count, 10)
+        # yield points at source lines that are executed only once or twice in the whole run (e.g. "exec the generated code" / "look the function
+        # up"): singular windows that uniform sampling over thousands of yield points rarely hits
+        loc_count = collections.Counter(sc0.trace)
+        rare = [i + 1 for i, loc in enumerate(sc0.trace) if loc_count[loc] <= 2 and loc[1]] or [1]
+        out.count("rare_yield_points", len(rare))
         out.sample({"program": program, "serial_orders": norders, "distinct_serial_outcomes": len(allowed), "yield_points_no_preemption": sc0.count, "yield_points_by_file": dict(sc0.files.most_common(6))})
         plans = []
         for s in range(spec["schedules"]):
@@ -335,8 +342,10 @@ def run(spec, out):
             if mode < 0.6:
                 d = rng.choice([1, 2, 2, 3])
                 plans.append(("pct", set(rng.randrange(1, N + 1) for _ in range(d)), 0.0))
-            elif mode < 0.9:
+            elif mode < 0.8:
                 plans.append(("random", set(), rng.choice([0.01, 0.03, 0.1, 0.3])))
+            elif mode < 0.9:
+                plans.append(("rare-line", set(rng.choice(rare) + rng.choice([0, 0, 1]) for _ in range(rng.choice([1, 1, 2]))), 0.0))
             else:
                 plans.append(("first", {1, rng.randrange(1, N + 1)}, 0.0))
         if spec["systematic"]:
